@@ -353,6 +353,13 @@ def _check(prog, pdf, part, ordered, idx_ok, stages, observe=None):
                         m = ("uncomparable", "%s: %s" % (type(ex).__name__, ex))
                     if observe is not None:
                         observe("index_shuffle_aligned", True)
+                if m is not None and _label_alignment_on_duplicate_labels(prog, coll, val, expected):
+                    # Calibration (after dask repair aabdcf7): operands that dask cannot prove co-aligned and whose divisions
+                    # are unknown are aligned BY LABEL through an index shuffle.  pandas aligns by label too, except that it
+                    # short-cuts to positional pairing when the two indexes are the identical object / equal - which dask
+                    # cannot see.  With duplicated labels the two notions differ (label alignment multiplies the rows of a
+                    # label), so such programs are outside what the statement can demand of the optimizer.
+                    return ("reject", "label alignment of operands with duplicated row labels that are not provably co-aligned")
                 if m is not None and not idx_ok and _aligns_on_labels_after_merge(prog):
                     # Calibration (after dask repair aabdcf7): the row labels of a dask merge result are partition-local
                     # (documented divergence from pandas; the generator marks them "not comparable").  An elementwise
@@ -372,6 +379,28 @@ def _check(prog, pdf, part, ordered, idx_ok, stages, observe=None):
         if fails:
             return ("bad", fails)
         return ("ok", None)
+
+
+def _label_alignment_on_duplicate_labels(prog, coll, val, expected):
+    """The un-optimized expression already contains an alignment shuffle that no program operation asks for, and row labels
+    are duplicated in the expected or the computed result."""
+    import pandas as pd
+
+    from vf.gen import c43_programs as P
+
+    try:
+        if not isinstance(expected, (pd.Series, pd.DataFrame)):
+            return False
+        dup = (not expected.index.is_unique) or (isinstance(val, (pd.Series, pd.DataFrame)) and not val.index.is_unique)
+        if not dup:
+            return False
+        feats = set(P.label_features(prog))
+        if feats & {"merge", "sort_values", "set_index", "groupby", "gb", "gbf", "drop_duplicates", "shuffle"}:
+            return False
+        names = {type(e).__name__ for e in coll.expr.lower_completely().walk()}
+        return any(("Shuffle" in n or "PartitioningIndex" in n) for n in names)
+    except Exception:  # noqa: BLE001
+        return False
 
 
 def _aligns_on_labels_after_merge(prog):
